@@ -492,9 +492,14 @@ func runCheck(cfg RunConfig) int {
 				for i := range e.started {
 					s := e.started[i].Load()
 					c, _ := e.watch[i].Load().(Case)
-					budget := 20 * time.Second
+					// json.Marshal (custom MarshalJSON re-validated at every level) and the decoder are quadratic in nesting
+					// depth: 2 000 juxtaposed terms (4 kB) take 3–8 s on an idle machine, 10^4 about 30 s
+					budget := 30 * time.Second
+					if len(c.S) > 1000 {
+						budget = 120 * time.Second
+					}
 					if len(c.S) > 5000 {
-						budget = 180 * time.Second
+						budget = 300 * time.Second
 					}
 					if s != 0 && time.Since(time.Unix(0, s)) > budget {
 						// a slow call is only a violation if it is slow in a fresh process too: on an overloaded machine a
@@ -505,7 +510,7 @@ func runCheck(cfg RunConfig) int {
 							continue
 						}
 						path := filepath.Join(cfg.ReplayDir, cfg.Prop+"-hang.json")
-						writeJSON(path, Failure{Case: c, Class: "crash", Clause: "an implementation call did not return within its budget (20 s for inputs up to 5 kB; 180 s above: json.Marshal of a 10^4-deep tree, the slowest legitimate call, is quadratic and takes about 30 s)"})
+						writeJSON(path, Failure{Case: c, Class: "crash", Clause: "an implementation call did not return within its budget, in the run and again in a fresh process (30 s for inputs up to 1 kB, 120 s up to 5 kB, 300 s above; the slowest legitimate calls, json.Marshal and the decoder, are quadratic in nesting depth: about 30 s for a 10^4-deep tree)"})
 						fmt.Printf("VIOLATION property=%s replay=%s\n", cfg.Prop, path)
 						os.Exit(1)
 					}
